@@ -1,9 +1,11 @@
 pub mod cfg;
 pub mod checks;
 pub mod ctx;
+pub mod exec;
 pub mod gen;
 pub mod mon;
 pub mod plug;
+pub mod pool;
 pub mod rng;
 pub mod val;
 
